@@ -223,6 +223,15 @@ func c03Run(c *core.Ctx) *core.Result {
 	fileStat := func(p string) *types.Stat {
 		return &types.Stat{Path: p, Mode: 0644, Size: 5, ModTime: 1e18}
 	}
+	// a hard link may be announced with any non-directory, non-symlink type
+	hlStat := func(p string) *types.Stat {
+		st := fileStat(p)
+		st.Mode = uint32(core.Pick(R, []os.FileMode{0644, 0644, os.ModeNamedPipe | 0644, os.ModeDevice | os.ModeCharDevice | 0600, os.ModeDevice | 0600, os.ModeSocket | 0600, os.ModeIrregular | 0600}))
+		if st.Mode != 0644 {
+			st.Size = 0
+		}
+		return st
+	}
 	dirStat := func(p string) *types.Stat {
 		return &types.Stat{Path: p, Mode: uint32(os.ModeDir | 0755), ModTime: 1e18}
 	}
@@ -274,23 +283,23 @@ func c03Run(c *core.Ctx) *core.Result {
 	case "noparent":
 		ins(k, evil("nodir"+fmt.Sprint(R.Intn(9))+"/x"))
 	case "hl-unknown":
-		st := fileStat("zz-hl")
+		st := hlStat("zz-hl")
 		st.Linkname = "never-sent"
 		stats = append(stats, st)
 	case "hl-later":
-		st := fileStat("0-hl")
+		st := hlStat("0-hl")
 		st.Linkname = "zz-later"
 		ins(0, st)
 		stats = append(stats, fileStat("zz-later"))
 	case "hl-escape":
-		st := fileStat("zz-hl")
+		st := hlStat("zz-hl")
 		st.Linkname = core.Pick(R, []string{"../sibling", outside + "/file", up + rc + "/outside/file", "../../top"})
 		stats = append(stats, st)
 	case "hl-nonfile":
 		for _, st0 := range stats {
 			m := os.FileMode(st0.Mode)
 			if m.IsDir() || m&os.ModeSymlink != 0 {
-				st := fileStat("zz-hl")
+				st := hlStat("zz-hl")
 				st.Linkname = st0.Path
 				stats = append(stats, st)
 				break
